@@ -6,6 +6,7 @@ from pyvc.values import *
 from pyvc.engine import State
 from .common import *
 from .C15 import u_get_cell_size  # noqa: F401  (cell-size derivation, shared with C15)
+from .C13 import u_query_terminal  # noqa: F401  (what was queued before a query is discarded before the request is written)
 
 CTL, UTILS, KITTY, ITERM, IMGINIT = "_ctlseqs.py", "utils.py", "image/kitty.py", "image/iterm2.py", "image/__init__.py"
 TRUSTED = ["the reply regexes (RGB_SPEC_re, XTVERSION_re, KITTY_RESPONSE_re) extract the documented fields from a well-formed reply (assumed; group extraction is modelled, not the regex engine)",
